@@ -1176,3 +1176,157 @@ pub fn check_c20(rep: &mut Report) {
     rep.set("pairs_compared", json!(compared));
     finalize(rep);
 }
+
+// ---------------------------------------------------------------------------------------
+// C06: watch mode converges (real incremental runner, real files, virtual watcher)
+
+fn rf(name: &str, kind: Kind, deps: &[&str], inputs: &[usize], from: &[&str], output: Option<usize>) -> TSpec {
+    TSpec { name: name.into(), kind, deps: deps.iter().map(|s| s.to_string()).collect(), has_input: true, inputs: inputs.to_vec(), from: from.iter().map(|s| s.to_string()).collect(), output }
+}
+
+pub fn c06_cfgs(thorough: bool) -> Vec<Cfg> {
+    let mk = |name: &str, files: &[&str], targets: Vec<TSpec>, roots: &[&str], budget: u32| {
+        let mut c = cfg(name, targets, roots);
+        c.files = files.iter().map(|s| s.to_string()).collect();
+        c.watch = true;
+        c.real_incremental = true;
+        c.change_budget = budget;
+        c
+    };
+    let b = if thorough { 2 } else { 1 };
+    let mut v = vec![
+        mk("single-build", &["in_t.txt", "out_t.txt"], vec![rf("t", Kind::B, &[], &[0], &[], Some(1))], &["t"], 2),
+        mk("producer->consumer via output", &["in_p.txt", "out_p.txt", "in_c.txt", "out_c.txt"], vec![rf("c", Kind::B, &[], &[2], &["p"], Some(3)), rf("p", Kind::B, &[], &[0], &[], Some(1))], &["c"], b),
+        mk("build->service", &["in_b.txt", "out_b.txt", "in_s.txt"], vec![rf("s", Kind::S, &[], &[2], &["b"], None), rf("b", Kind::B, &[], &[0], &[], Some(1))], &["s"], b),
+        mk("producer->aggregate->consumer", &["in_p.txt", "out_p.txt", "in_c.txt", "out_c.txt"], vec![rf("c", Kind::B, &["a"], &[2], &[], Some(3)), t("a", Kind::A, &["p"]), rf("p", Kind::B, &[], &[0], &[], Some(1))], &["c"], b),
+    ];
+    if thorough {
+        v.push(mk("single-build, 3 changes", &["in_t.txt", "out_t.txt"], vec![rf("t", Kind::B, &[], &[0], &[], Some(1))], &["t"], 3));
+        v.push(mk("producer->consumer + sibling", &["in_p.txt", "out_p.txt", "in_c.txt", "out_c.txt", "in_d.txt", "out_d.txt"], vec![rf("c", Kind::B, &[], &[2], &["p"], Some(3)), rf("p", Kind::B, &[], &[0], &[], Some(1)), rf("d", Kind::B, &[], &[4], &[], Some(5))], &["c", "d"], 1));
+        let mut armed = mk("single-build, parked between script end and record write", &["in_t.txt", "out_t.txt"], vec![rf("t", Kind::B, &[], &[0], &[], Some(1))], &["t"], 1);
+        armed.armed = vec![("t".into(), zinoma::verif::points::SCRIPT_DONE), ("t".into(), zinoma::verif::points::STATE_COMPUTED)];
+        v.push(armed);
+    }
+    // only the producer's / first input is changed by the environment in the two-build shapes (keeps the space small);
+    // the consumer's own input is changed in a second variant
+    let mut extra = vec![];
+    for c in v.iter_mut() {
+        if c.files.len() >= 4 && c.changeable.is_empty() {
+            let mut own = c.clone();
+            own.name = format!("{} (consumer's own input changes)", c.name);
+            own.changeable = vec![2];
+            extra.push(own);
+            c.changeable = vec![0];
+        }
+    }
+    v.extend(extra);
+    v
+}
+
+fn expected_content(sys: &Sys, t: &str) -> String {
+    let ins: Vec<String> = sys
+        .effective_inputs(t)
+        .into_iter()
+        .map(|f| {
+            // an input that is another build's output: what that build must have produced
+            match sys.cfg.targets.iter().find(|p| p.output == Some(f)) {
+                Some(p) => expected_content(sys, &p.name),
+                None => sys.read_file(f).unwrap_or_else(|| "<missing>".into()),
+            }
+        })
+        .collect();
+    format!("{}({})", t, ins.join(","))
+}
+
+pub fn c06_terminal(sys: &Sys, ctx: &mut Ctx) {
+    let cfg = &sys.cfg;
+    ctx.count("quiescent states");
+    let evs = sys.events_from(0);
+    if sys.run_result().is_some() {
+        ctx.violation("watch-run-returned", format!("the watch run returned {:?} without a signal", sys.run_result()));
+        return;
+    }
+    let changes = evs.iter().filter(|e| matches!(e, Ev::Change { .. })).count();
+    if changes > 0 {
+        ctx.count("quiescent states after >=1 change");
+    }
+    let (stuck_fp, stuck_detail) = describe_stuck(sys);
+    for tname in cfg.closure() {
+        let t = cfg.spec(&tname);
+        match t.kind {
+            Kind::B => {
+                if let Some(o) = t.output {
+                    let want = expected_content(sys, &tname);
+                    let have = sys.read_file(o).unwrap_or_else(|| "<missing>".into());
+                    if want != have {
+                        // classify
+                        let h = sys.hist(&tname);
+                        let skipped_last = {
+                            // last decision: a re-run that did not spawn (the runner skipped) after an invalidation
+                            let last_inval = h.iter().rposition(|m| m == "inval" || m.starts_with("Invalidated"));
+                            let last_spawn = h.iter().rposition(|m| m == "spawn");
+                            matches!((last_inval, last_spawn), (Some(i), Some(s)) if i > s) || (last_inval.is_some() && last_spawn.is_none())
+                        };
+                        let why = if !stuck_fp.is_empty() {
+                            format!("left waiting: {}", stuck_fp)
+                        } else if skipped_last {
+                            "the re-run triggered by the change was skipped (change absorbed by the recorded state)".to_string()
+                        } else {
+                            "not re-run after the last relevant change".to_string()
+                        };
+                        ctx.violation(
+                            format!("stale-output-at-quiescence [{}]: {}", cfg.name, why),
+                            format!("{}: {} contains {:?} but its current inputs require {:?}\n{}\nhistory of {}: {:?}\n{}", cfg.name, cfg.files[o], have, want, why, tname, h, stuck_detail),
+                        );
+                    }
+                }
+            }
+            Kind::S => {
+                let ch: Vec<_> = sys.children().into_iter().filter(|c| c.target == tname).collect();
+                let live: Vec<_> = ch.iter().filter(|c| c.status.is_none()).collect();
+                if live.len() != 1 {
+                    ctx.violation(format!("service-instances-at-quiescence [{}]: {}", cfg.name, live.len()), format!("{} live instances of service {} at quiescence {}", live.len(), tname, stuck_detail));
+                    continue;
+                }
+                let snap = sys.spawn_inputs.get(&live[0].idx).cloned().unwrap_or_default();
+                let cur: Vec<(usize, String)> = sys.effective_inputs(&tname).into_iter().map(|f| (f, sys.read_file(f).unwrap_or_else(|| "<missing>".into()))).collect();
+                let cur_expected: Vec<(usize, String)> = sys.effective_inputs(&tname).into_iter().map(|f| (f, match cfg.targets.iter().find(|p| p.output == Some(f)) { Some(p) => expected_content(sys, &p.name), None => sys.read_file(f).unwrap_or_else(|| "<missing>".into()) })).collect();
+                if snap != cur || cur != cur_expected {
+                    ctx.violation(format!("service-not-restarted-after-last-change [{}]", cfg.name), format!("service {} was started with inputs {:?}; current {:?}; required {:?}\nhistory: {:?}", tname, snap, cur, cur_expected, sys.hist(&tname)));
+                }
+            }
+            Kind::A => {}
+        }
+    }
+    if !stuck_fp.is_empty() && changes == 0 {
+        ctx.violation(format!("first-build-incomplete [{}]: {}", cfg.name, stuck_fp), stuck_detail);
+    }
+}
+
+pub fn c06_step(sys: &Sys, ev0: usize, ctx: &mut Ctx) {
+    for e in sys.events_from(ev0) {
+        match e {
+            Ev::Change { .. } => {
+                ctx.count("changes");
+                let ch = sys.children();
+                if ch.iter().any(|c| c.status.is_none() && !c.service) {
+                    ctx.count("changes while a build is running");
+                }
+            }
+            Ev::Notify { delivered: false, .. } => ctx.count("notifications dropped on a full slot"),
+            Ev::Point { .. } => ctx.count("parked at an armed point"),
+            _ => {}
+        }
+    }
+}
+
+pub fn check_c06(rep: &mut Report) {
+    crate::seq_watch::watch_startup(rep);
+    let mk = std_checks(c06_step, c06_terminal);
+    let dl = deadline(rep, 150, 3000);
+    let out = sweep(c06_cfgs(rep.thorough()), &mk, dl, 2_000_000);
+    fill_report(rep, &out, "watch mode, real incremental runner on real files, virtual watcher: every schedule x every placement of the changes");
+    finalize(rep);
+    rep.assumptions.push("script effect: reads its inputs when it starts, writes its output when it ends".into());
+    rep.assumptions.push("which targets a file belongs to is decided by the reference predicate checked against the real watcher in C16".into());
+}
